@@ -48,10 +48,38 @@ never consulted (they hold for every `ans`).  For the answer-dependent kinds, `C
 `C02_utilize_prong`, `C02_randomize_prong` identify the prong the resolution pass marks with the
 value of `headSelect` / `argMax` / `resolveRandom` (characterised by C12), and `C02_commit_any` says
 that, whatever the kind, the configuration after the step is the commit pass applied to those marks.
+
+END TO END for the answer-dependent kinds (last section of this file): `Mach.answers m t` lists, in the
+order of consumption, the pairs (region head id, prong) that the lone request `t` resolves by asking
+user code or the generator; every prong is computed from the decision and generator streams at the start
+of the step by the pure stream functions of C12 (`Sig.headSel`, `argMax ∘ utilizeSpecAll/changeSpecAll`,
+`rankSpecAll`, `randomizeSpecTop/changeSpecTop`, `Sig.resolve`, positions threaded by `requestSpec` &c.;
+definitions in `Proofs/C02Choices.lean` and `Proofs/C02PathChoices.lean`; `Node.requestCh_head` ties an entry
+to C12's `requestChoice`).  The list is written by the recursion of `Node.spec` itself, without the
+operational passes; `C02_answers_operational` identifies it with what `mark` + `deepForwardActive` consume.
+`C02_single_answered`: for EVERY oracle that agrees with that list the step yields `Node.spec ans`;
+`C02_single_ansOf`: on a tree numbered in pre-order (`IdsFrom 0`, an invariant of every reachable
+machine) with `err = none` after the step, the oracle `Mach.ansOf m t` read off the list does.
+`C02_single_of_answered`: `C02_single` is the special case "the list is empty".
+ O2 (C12) at machine level: a utilitarian / random resolution marks the nested regions of ALL candidates.
+     The marks of the losers are visible to the guards of the round (`isPendingEnter` is true for states
+     that are never entered) but do NOT change the committed configuration of a lone request:
+     that is what `C02_single_answered` proves (`Node.Sim`, `Proofs/C02Sim.lean`); witness of the
+     observation: `C02_stale_marks_witness`.  (Inside a batch they do matter: C12 `witness_stale_mark_used`.)
+ O1 (C12): under `change`, a SELECTABLE region nested in a utilitarian / random one is resolved by
+     `deepReportChange`, which takes the resumable sub-state (or 0) and never calls `select()`;
+     `Mach.answers` lists that prong, `Node.spec` consults the oracle there (`pickProng`), so the
+     theorem holds with the listed value — it is NOT "what `select()` would have answered"
+     (`C02_selectable_below_utilitarian_witness`).
+ The list also contains the resolutions inside losing candidates (they consume answers); the
+     hypothesis `Agrees` / `err = none` therefore also demands that those did not fail; a failed
+     resolution is listed as `none` (`C02_select_out_of_range_witness`).  A vetoed round of any kind
+     restores the tree: `C02_veto_unchanged_any`.
 -/
 import Hfsm.Proofs.C02Veto
 import Hfsm.Proofs.C02Misc
 import Hfsm.Proofs.C02Beq
+import Hfsm.Proofs.C02Answered
 
 namespace Hfsm.Props.C02
 open Hfsm
@@ -740,6 +768,320 @@ Theorems that constitute the property (for Props/INDEX.json):
   C02_batch_kind_leak_counterexample  E3 / N7 witness
   C02_single_literal_partial          the literal reading (`specLit`) when the destination's parent is composite
   example_R2                          reading note R2 witness (the literal reading fails below an orthogonal parent)
+-/
+
+/-! ### answer-dependent kinds, end to end -/
+
+/-- One approved request of ANY kind other than `schedule` (hypotheses of `C02_single`, with
+`AnswerFree` replaced by `Agrees`): for every oracle that gives each region the request resolves by
+`select()` / utilities / ranks / the generator the prong that resolution computes from the streams
+(`Mach.answers`), the tree after the step is the specified one. -/
+theorem C02_single_answered (ans : Nat → Nat) (m : Mach U) (t : Transition) (p : List Nat)
+    (hS : m.root.Settled) (hid : m.root.id = 0)
+    (hq : m.w.requests = [t]) (hk : t.kind ≠ .schedule) (hd : t.dest < m.w.cfg.stateCount)
+    (hp : m.root.pathTo t.dest = some p) (hl : 0 < m.w.cfg.substitutionLimit)
+    (ha : Agrees ans (m.answers t)) (hu : m.Unvetoed)
+    (hE : p = [] ∨ m.root.hasCompo p = true) :
+    m.processRequest.root = m.root.spec ans t.kind p :=
+  Mach.C02.processRequest_answered ans m t p hS hid hq hk hd hp hl ha hu hE
+
+/-- `Mach.answers` is written without the operational passes (`Node.specCh`: the recursion of `Node.spec`
+over `Node.requestCh` and C12's stream functions).  On a settled tree it is the list of answers that
+`requestImmediate` (`Node.mark`) followed by `deepForwardActive` / `deepRequest` consume. -/
+theorem C02_answers_operational (m : Mach U) (t : Transition) (p : List Nat)
+    (hS : m.root.Settled) (hid : m.root.id = 0)
+    (hp : m.root.pathTo t.dest = some p) (hE : p = [] ∨ m.root.hasCompo p = true) :
+    m.answers t =
+      if t.dest = 0 then m.root.requestCh t.kind m.w.sig else (m.root.mark p).1.fwdActiveCh t.kind m.w.sig := by
+  rw [Mach.C02.answers_eq_op m t p hS.2.1 hS.2.2.1 hid hp hE]
+  simp only [Mach.answersOp, Node.answersTo, hp]
+
+/-- If the model met no contract violation up to the guards of the round (`select()` answered a prong
+in range, the generator stream was not exhausted, every draw selected something, …), no resolution of
+the request failed. -/
+theorem C02_answers_noFail (m : Mach U) (t : Transition) (p : List Nat)
+    (hS : m.root.Settled) (hid : m.root.id = 0) (hq : m.w.requests = [t]) (hk : t.kind ≠ .schedule)
+    (hd : t.dest < m.w.cfg.stateCount) (hp : m.root.pathTo t.dest = some p)
+    (hE : p = [] ∨ m.root.hasCompo p = true) (he : m.atGuards.w.err = none) : NoFail (m.answers t) :=
+  Mach.C02.answers_noFail m t p hS hid hq hk hd hp hE he
+
+/-- On a tree numbered in pre-order the answers list each region at most once (head ids strictly
+increasing), so the oracle read off the list, `Mach.ansOf`, agrees with it. -/
+theorem C02_ansOf_agrees (m : Mach U) (t : Transition) (p : List Nat)
+    (hS : m.root.Settled) (hI : m.root.IdsFrom 0)
+    (hq : m.w.requests = [t]) (hk : t.kind ≠ .schedule) (hd : t.dest < m.w.cfg.stateCount)
+    (hp : m.root.pathTo t.dest = some p) (hE : p = [] ∨ m.root.hasCompo p = true)
+    (he : m.atGuards.w.err = none) :
+    (m.answers t).Within 0 (0 + m.root.size) ∧ Agrees (m.ansOf t) (m.answers t) :=
+  ⟨Mach.C02.answers_within m t p hS hI hp hE, Mach.C02.agrees_ansOf m t p hS hI hq hk hd hp hE he⟩
+
+/-- END TO END.  One approved request of any kind other than `schedule` on a settled tree numbered in
+pre-order, no contract violation during the step: the tree after the step is `Node.spec` with the
+oracle `Mach.ansOf m t` = the choices C12's pure stream functions compute from the decision and
+generator streams at the start of the step. -/
+theorem C02_single_ansOf (m : Mach U) (t : Transition) (p : List Nat)
+    (hS : m.root.Settled) (hI : m.root.IdsFrom 0)
+    (hq : m.w.requests = [t]) (hk : t.kind ≠ .schedule) (hd : t.dest < m.w.cfg.stateCount)
+    (hp : m.root.pathTo t.dest = some p) (hl : 0 < m.w.cfg.substitutionLimit)
+    (he : m.processRequest.w.err = none) (hu : m.Unvetoed)
+    (hE : p = [] ∨ m.root.hasCompo p = true) :
+    m.processRequest.root = m.root.spec (m.ansOf t) t.kind p := by
+  have hne : m.w.requests ≠ [] := by rw [hq]; exact List.cons_ne_nil _ _
+  have he' := Mach.C02.atGuards_err_of_processRequest m hne hl he
+  exact C02_single_answered (m.ansOf t) m t p hS (Node.IdsFrom.id_eq hI) hq hk hd hp hl
+    (Mach.C02.agrees_ansOf m t p hS hI hq hk hd hp hE he') hu hE
+
+/-- `C02_single_ansOf` in terms of the destination id. -/
+theorem C02_single_ansOf_specTo (m : Mach U) (t : Transition) (p : List Nat)
+    (hS : m.root.Settled) (hI : m.root.IdsFrom 0)
+    (hq : m.w.requests = [t]) (hk : t.kind ≠ .schedule) (hd : t.dest < m.w.cfg.stateCount)
+    (hp : m.root.pathTo t.dest = some p) (hl : 0 < m.w.cfg.substitutionLimit)
+    (he : m.processRequest.w.err = none) (hu : m.Unvetoed)
+    (hE : p = [] ∨ m.root.hasCompo p = true) :
+    m.processRequest.root = m.root.specTo (m.ansOf t) t.kind t.dest := by
+  rw [C02_single_ansOf m t p hS hI hq hk hd hp hl he hu hE]
+  simp only [Node.specTo, hp]
+
+/-- An answer-free request consumes no answer … -/
+theorem C02_answers_answerFree (m : Mach U) (t : Transition) (p : List Nat)
+    (hS : m.root.Settled) (hid : m.root.id = 0) (hp : m.root.pathTo t.dest = some p)
+    (hE : p = [] ∨ m.root.hasCompo p = true) (hf : AnswerFree t.kind m.root) : m.answers t = [] :=
+  Mach.C02.answers_answerFree m t p hS hid hp hE hf
+
+/-- … so `C02_single` is the special case of `C02_single_answered` in which the oracle is never consulted. -/
+theorem C02_single_of_answered (ans : Nat → Nat) (m : Mach U) (t : Transition) (p : List Nat)
+    (hS : m.root.Settled) (hid : m.root.id = 0)
+    (hq : m.w.requests = [t]) (hk : t.kind ≠ .schedule) (hd : t.dest < m.w.cfg.stateCount)
+    (hp : m.root.pathTo t.dest = some p) (hl : 0 < m.w.cfg.substitutionLimit)
+    (hf : AnswerFree t.kind m.root) (hu : m.Unvetoed)
+    (hE : p = [] ∨ m.root.hasCompo p = true) :
+    m.processRequest.root = m.root.spec ans t.kind p :=
+  C02_single_answered ans m t p hS hid hq hk hd hp hl
+    (by rw [C02_answers_answerFree m t p hS hid hp hE hf]; exact agrees_nil ans) hu hE
+
+/-- The entry of a region resolved by `select` / `utilize` / `randomize` (or `change` of a region
+declared so) is C12's `requestChoice` at the stream position where the traversal reaches it. -/
+theorem C02_answer_is_requestChoice (id rid inj : Nat) (h : Bool) (st : Strategy) (a r q : Option Nat) (mk : Bool)
+    (s : Subs) (k : Kind) (σ : Sig U)
+    (hk : effectiveKind st k = .select ∨ effectiveKind st k = .utilize ∨ effectiveKind st k = .randomize) :
+    ((Node.compo id rid inj h st a r q mk s).requestCh k σ).head? = some (id, requestChoice h st r none s k σ) :=
+  Node.requestCh_head id rid inj h st a r q mk s k σ hk
+
+/-- A vetoed single round (whose guard callbacks queue nothing) changes nothing — for a request of ANY
+kind other than `schedule`, whatever `select()` / `utility()` / `rank()` / the generator answered
+(the answers are consumed all the same). -/
+theorem C02_veto_unchanged_any (m : Mach U) (t : Transition)
+    (hS : m.root.Settled)
+    (hq : m.w.requests = [t]) (hk : t.kind ≠ .schedule) (hd : t.dest < m.w.cfg.stateCount)
+    (hl : 0 < m.w.cfg.substitutionLimit)
+    (hveto : (m.atGuards.approvedByGuards [] m.w.requests).2 = false)
+    (hquiet : (m.atGuards.approvedByGuards [] m.w.requests).1.w.requests = []) :
+    m.processRequest.root = m.root := by
+  obtain ⟨-, -, hNM, -⟩ := hS
+  have hne : m.w.requests ≠ [] := by rw [hq]; exact List.cons_ne_nil _ _
+  have hsame := Mach.C02.atGuards_clearMarks m t hq hk hd
+  cases hdf : m.atGuards.root.marksDiffer m.root with
+  | true => exact Mach.C02.processRequest_root_veto m hne hl hNM hsame hdf hveto hquiet
+  | false =>
+    rw [Mach.C02.processRequest_root_same m hne hl hdf, hsame, C02.Node.clearMarks_of_noMarks _ hNM]
+
+/-- What makes the composition work although the marks differ (O2): the tree the guards see is `Sim`
+the tree of the pure resolution — equal wherever the commit pass walks, equal up to marks elsewhere —
+and `commit` followed by `clearRequests` cannot tell `Sim` trees apart. -/
+theorem C02_marks_sim (ans : Nat → Nat) (m : Mach U) (t : Transition) (p : List Nat)
+    (hS : m.root.Settled) (hid : m.root.id = 0)
+    (hq : m.w.requests = [t]) (hk : t.kind ≠ .schedule) (hd : t.dest < m.w.cfg.stateCount)
+    (hp : m.root.pathTo t.dest = some p) (hE : p = [] ∨ m.root.hasCompo p = true)
+    (ha : Agrees ans (m.answers t)) :
+    m.atGuards.root.Sim
+      (if t.dest = 0 then m.root.requestR ans t.kind else (m.root.mark p).1.fwdActiveR ans t.kind) ∧
+    ∀ x y : Node, x.Sim y → x.commitR.clearMarks = y.commitR.clearMarks :=
+  ⟨Mach.C02.atGuards_sim ans m t p hq hk hd hp
+      (by rw [← Mach.C02.answers_eq_op m t p hS.2.1 hS.2.2.1 hid hp hE]; exact ha),
+   C02.Node.sim_commitR⟩
+
+section WitnessAnswered
+open Shape Shapes
+
+attribute [local instance] natArith
+
+/-- A = `R(0)[ A(1) U⟨utilitarian⟩(2)[ X(3)[X0(4) X1(5)] Y⟨random⟩(6)[Y0(7) Y1(8)] ] S⟨selectable⟩(9)[S0(10) S1(11)] ]` -/
+def shapeA : Shape :=
+  compo true 0 .composite
+    (cons (leaf 0)
+    (cons (compo true 0 .utilitarian
+            (cons (compo true 0 .composite (cons (leaf 0) (cons (leaf 0) nil)))
+            (cons (compo true 0 .random (cons (leaf 0) (cons (leaf 0) nil))) nil)))
+    (cons (compo true 0 .selectable (cons (leaf 0) (cons (leaf 0) nil))) nil)))
+
+/-- the same machine with the given answers of user code (followed by idle callbacks) and generator outputs -/
+def withStreams (m : Mach Nat) (ds : List (Decision Nat)) (rng : List Nat) : Mach Nat :=
+  { m with w := { m.w with ds := ds ++ quiet, rng := rng } }
+
+/-- A after its first activation (`A` active) -/
+@[irreducible] def machA : Mach Nat := start shapeA
+
+def rootA : Node :=
+  .compo 0 0 0 true .composite (some 0) none none false
+    (.cons false (.leaf 1 0)
+    (.cons false (.compo 2 1 0 true .utilitarian none none none false
+        (.cons false (.compo 3 2 0 true .composite none none none false
+            (.cons false (.leaf 4 0) (.cons false (.leaf 5 0) .nil)))
+        (.cons false (.compo 6 3 0 true .random none none none false
+            (.cons false (.leaf 7 0) (.cons false (.leaf 8 0) .nil))) .nil)))
+    (.cons false (.compo 9 4 0 true .selectable none none none false
+        (.cons false (.leaf 10 0) (.cons false (.leaf 11 0) .nil))) .nil)))
+
+private theorem machA_root : machA.root = rootA := C02.Node.eq_of_beq _ _ (by decide +kernel)
+
+private theorem rootA_settled : rootA.Settled := by
+  simp [rootA, Node.Settled, Node.OK, Subs.OKAll, Subs.len, Node.Act, Subs.ActAt, Subs.CleanAll,
+    Node.Clean, Node.NoMarks, Subs.NoMarksAll, Node.ResumableOK, Subs.ResumableOKAll]
+
+private theorem rootA_ids : rootA.IdsFrom 0 := by
+  simp [rootA, Node.IdsFrom, Subs.IdsFrom, Node.size, Subs.size]
+
+/-- `changeTo(U)` with `X.utility = 1`, `X0.utility = 2`, `Y.utility = 1`, ranks `Y0: 0`, `Y1: 1`,
+`Y1.utility = 7`, generator output `0` -/
+@[irreducible] def machA1 : Mach Nat :=
+  (withStreams machA [[.retUtil 1], [.retUtil 2], [.retUtil 1], [.retRank 0], [.retRank 1], [.retUtil 7]] [0]).request
+    .change 2 none
+
+private theorem machA1_root : machA1.root = rootA := C02.Node.eq_of_beq _ _ (by decide +kernel)
+
+/-- `C02_single_ansOf` on a utilitarian region with a nested random one: `changeTo(U)` from `A`.
+The request consumes two answers: `U` (head 2) picks `Y` (1 × 7 > 1 × 2), `Y` (head 6) draws `Y1`
+(the only top-rank sub-state).  The step switches the root to `U`, `U` to `Y`, `Y` to `Y1`; `X`, the
+candidate that lost, stays inactive.  Every hypothesis holds. -/
+example :
+    machA1.answers ⟨none, 2, .change, none⟩ = [(2, some 1), (6, some 1)] ∧
+    machA1.processRequest.root = machA1.root.spec (machA1.ansOf ⟨none, 2, .change, none⟩) .change [1] ∧
+    machA1.processRequest.root.config
+      = [(0, some 1, some 0), (2, some 1, none), (3, none, none), (6, some 1, none), (9, none, none)] := by
+  refine ⟨by decide +kernel, ?_, by decide +kernel⟩
+  exact C02_single_ansOf machA1 ⟨none, 2, .change, none⟩ [1]
+    (by rw [machA1_root]; exact rootA_settled) (by rw [machA1_root]; exact rootA_ids)
+    (by decide +kernel) (by decide) (by decide +kernel) (by decide +kernel) (by decide +kernel)
+    (by decide +kernel) (by unfold Mach.Unvetoed; decide +kernel) (by decide +kernel)
+
+/-- the same step through `C02_single_answered`, with an oracle written by hand -/
+example :
+    machA1.processRequest.root
+      = machA1.root.spec (fun id => if id = 2 then 1 else if id = 6 then 1 else 0) .change [1] :=
+  C02_single_answered _ machA1 ⟨none, 2, .change, none⟩ [1]
+    (by rw [machA1_root]; exact rootA_settled) (by decide +kernel)
+    (by decide +kernel) (by decide) (by decide +kernel) (by decide +kernel) (by decide +kernel)
+    (by unfold Agrees; decide +kernel) (by unfold Mach.Unvetoed; decide +kernel) (by decide +kernel)
+
+/-- O2 at machine level, witness.  In the step above the report pass of `U` marked the nested region
+of the losing candidate `X` (`requested = X0`); the pure resolution leaves `X` unmarked.  The guards of
+the round see the stale mark (`isPendingEnter(X0)` is true although `X0` is never entered); the
+committed configuration is the specified one all the same.
+History: `enter; changeTo(U); update` with `utility()`/`rank()` answers as in `machA1`. -/
+theorem C02_stale_marks_witness :
+    (machA1.atGuards.root.follow [1, 0]).map Node.requested = some (some 0) ∧
+    (((machA1.root.mark [1]).1.fwdActiveR (machA1.ansOf ⟨none, 2, .change, none⟩) .change).follow [1, 0]).map
+        Node.requested = some none ∧
+    machA1.atGuards.root.isPendingEnter 4 = true ∧
+    machA1.processRequest.root.isActive 4 = false ∧
+    machA1.processRequest.root.isActive 8 = true ∧
+    machA1.processRequest.root.NoMarks :=
+  ⟨by decide +kernel, by decide +kernel, by decide +kernel, by decide +kernel, by decide +kernel,
+   by rw [Mach.C02.processRequest_root_differ machA1 (by decide +kernel) (by decide +kernel) (by decide +kernel)
+        (by unfold Mach.Unvetoed; decide +kernel)]
+      exact C02.Node.clearMarks_isNoMarks _⟩
+
+/-- A in `U / Y / Y1` (after the step above), then `utilize(U)` with `X: 1, X0: 3, X1: 9`, `Y: 1, Y0: 4, Y1: 5` -/
+@[irreducible] def machA2 : Mach Nat :=
+  (withStreams machA1.processRequest
+      [[.retUtil 1], [.retUtil 3], [.retUtil 9], [.retUtil 1], [.retUtil 4], [.retUtil 5]] []).request .utilize 2 none
+
+/-- `utilize(U)` while `U` is active in `Y`: the request re-targets `U` in place.  It consumes three
+answers — `U` picks `X` (9 > 5), `X` picks `X1`, and the loser `Y` picks `Y1` (listed, consumed, not
+committed).  The step leaves `Y` (recording `Y1`) and enters `X / X1`. -/
+example :
+    machA2.answers ⟨none, 2, .utilize, none⟩ = [(2, some 0), (3, some 1), (6, some 1)] ∧
+    machA2.root.config
+      = [(0, some 1, some 0), (2, some 1, none), (3, none, none), (6, some 1, none), (9, none, none)] ∧
+    machA2.processRequest.root.beq (machA2.root.spec (machA2.ansOf ⟨none, 2, .utilize, none⟩) .utilize [1]) = true ∧
+    machA2.processRequest.root.config
+      = [(0, some 1, some 0), (2, some 0, some 1), (3, some 1, none), (6, none, some 1), (9, none, none)] ∧
+    machA2.processRequest.w.err = none :=
+  ⟨by decide +kernel, by decide +kernel, by decide +kernel, by decide +kernel, by decide +kernel⟩
+
+/-- `changeTo(S)` from `A`, `select()` answers 1: one answer, `S` (head 9) takes `S1`. -/
+@[irreducible] def machA3 : Mach Nat := (withStreams machA [[.retSelect 1]] []).request .change 9 none
+
+private theorem machA3_root : machA3.root = rootA := C02.Node.eq_of_beq _ _ (by decide +kernel)
+
+example :
+    machA3.answers ⟨none, 9, .change, none⟩ = [(9, some 1)] ∧
+    machA3.processRequest.root = machA3.root.spec (machA3.ansOf ⟨none, 9, .change, none⟩) .change [2] ∧
+    machA3.processRequest.root.config
+      = [(0, some 2, some 0), (2, none, none), (3, none, none), (6, none, none), (9, some 1, none)] := by
+  refine ⟨by decide +kernel, ?_, by decide +kernel⟩
+  exact C02_single_ansOf machA3 ⟨none, 9, .change, none⟩ [2]
+    (by rw [machA3_root]; exact rootA_settled) (by rw [machA3_root]; exact rootA_ids)
+    (by decide +kernel) (by decide) (by decide +kernel) (by decide +kernel) (by decide +kernel)
+    (by decide +kernel) (by unfold Mach.Unvetoed; decide +kernel) (by decide +kernel)
+
+/-- B = `R(0)[ A(1) U⟨utilitarian⟩(2)[ S⟨selectable⟩(3)[S0(4) S1(5)] L(6) ] ]` (the tree of C12's
+`witness_stale_mark_used`) -/
+def shapeB : Shape :=
+  compo true 0 .composite
+    (cons (leaf 0)
+    (cons (compo true 0 .utilitarian
+            (cons (compo true 0 .selectable (cons (leaf 0) (cons (leaf 0) nil))) (cons (leaf 0) nil))) nil))
+
+/-- O1 at machine level, witness.  `changeTo(U)`: the selectable region `S` nested in the utilitarian
+`U` is resolved by `deepReportChange` — resumable-or-0, here `S0` — and `select()` is never called: the
+decision `select() = 1` that user code would give is not consumed (when the guards start, exactly the
+three `utility()` decisions are gone).  The list of answers says so (`(3, some 0)`), and with that oracle the step is the
+specified one: `S0` is entered.  History: `enter; changeTo(U); update`, `S.utility = 1`, `S0.utility = 5`,
+`L.utility = 1`. -/
+theorem C02_selectable_below_utilitarian_witness :
+    let m := (withStreams (start shapeB) [[.retUtil 1], [.retUtil 5], [.retUtil 1], [.retSelect 1]] []).request .change 2 none
+    m.answers ⟨none, 2, .change, none⟩ = [(2, some 0), (3, some 0)] ∧
+    m.atGuards.w.ds.length + 3 = m.w.ds.length ∧
+    m.processRequest.root.beq (m.root.spec (m.ansOf ⟨none, 2, .change, none⟩) .change [1]) = true ∧
+    m.processRequest.root.config = [(0, some 1, some 0), (2, some 0, none), (3, some 0, none)] :=
+  ⟨by decide +kernel, by decide +kernel, by decide +kernel, by decide +kernel⟩
+
+/-- Out of contract: `select()` answers a prong that does not exist.  The resolution fails (listed as
+`none`), the model records the violation (the library: `HFSM2_ASSERT`), no oracle agrees with the list,
+and the theorems above do not apply.  (In the model the entry guards' walk then meets the unresolved
+region, the round is dropped and the configuration stays as it was.)
+History: `enter; changeTo(S); update` with `select()` answering 5. -/
+theorem C02_select_out_of_range_witness :
+    let m := (withStreams machA [[.retSelect 5]] []).request .change 9 none
+    m.answers ⟨none, 9, .change, none⟩ = [(9, none)] ∧ m.processRequest.w.err = some "select() out of range" ∧
+    m.processRequest.root.config = m.root.config ∧
+    ∀ ans : Nat → Nat, ¬ Agrees ans (m.answers ⟨none, 9, .change, none⟩) := by
+  refine ⟨by decide +kernel, by decide +kernel, by decide +kernel, ?_⟩
+  intro ans h
+  have e : ((withStreams machA [[.retSelect 5]] []).request .change 9 none).answers ⟨none, 9, .change, none⟩
+      = [(9, none)] := by decide +kernel
+  rw [e] at h
+  exact absurd (h (9, none) (List.mem_singleton.2 rfl)) (by simp)
+
+end WitnessAnswered
+
+/-
+Theorems of the last section (for Props/INDEX.json):
+
+  C02_single_answered            one unvetoed request of any kind: tree after the step = `spec ans` for every
+                                 oracle that agrees with the answers the request consumes
+  C02_single_ansOf, _specTo      the same with the oracle `Mach.ansOf` read off the streams (pre-order ids, err = none)
+  C02_answers_operational        the declarative list = what `mark` + the forward pass consume (settled tree)
+  C02_answers_noFail             err = none up to the guards: no listed resolution failed
+  C02_ansOf_agrees               pre-order ids: each region listed once, `ansOf` agrees with the list
+  C02_answers_answerFree, C02_single_of_answered   `C02_single` is the special case "no answers consumed"
+  C02_answer_is_requestChoice    a listed prong is C12's `requestChoice` at the region's stream position
+  C02_veto_unchanged_any         a vetoed single round of any kind restores the tree
+  C02_marks_sim                  the marks at the guards are `Sim` the pure ones; commit + clear cannot tell
+  C02_stale_marks_witness        O2: the losers' marks are visible to the guards, not committed
+  C02_selectable_below_utilitarian_witness  O1: nested selectable region resolved without `select()`
+  C02_select_out_of_range_witness  a failed resolution: listed as `none`, err recorded, no oracle agrees
 -/
 
 end Hfsm.Props.C02
